@@ -33,6 +33,7 @@ VECTOR_DATA = {"operator[]", "at", "data", "front", "back", "begin", "end", "cbe
 LOOPS = {"ForStmt", "WhileStmt", "DoStmt", "CXXForRangeStmt"}
 CONDS = {"IfStmt", "SwitchStmt", "ConditionalOperator", "BinaryConditionalOperator", "CXXTryStmt"}
 GUARDS = ("lock_guard", "scoped_lock", "unique_lock")
+POINTERISH = __import__("re").compile(r"\*|&|iterator|_Node|element\b")
 ATOMIC_RE = __import__("re").compile(r"^\s*(const\s+|volatile\s+|mutable\s+)*(std::)?(atomic<|atomic_(?:bool|flag|char|schar|uchar|short|ushort|int|uint|long|ulong|llong|ullong|size_t|ptrdiff_t|intptr_t|uintptr_t|int\d+_t|uint\d+_t)\b)")
 
 
@@ -164,7 +165,14 @@ class Walker:
         self.cond = 0        # number of if / switch / ?: / try constructs around the node being visited
         self.guards = {}     # VarDecl id of a guard on m_lock -> does it hold the lock (straight-line reading)
         self.lam = {}        # ParmVarDecl / VarDecl id -> LambdaExpr bound to it (callable passed to a helper of the same object)
+        self.held = 0        # straight-line count of acquisitions minus releases emitted so far in the method being walked
+        self.locals = {}     # VarDecl id -> type string, for locals of pointer / reference / iterator type
+        self.tainted = set() # such locals that were initialised or assigned while the lock was held
         self.lam_stack = []
+
+    def emit_lock(self, out, tok):
+        out.append((tok, ""))
+        self.held += 1 if tok == "acq" else -1
 
     def guard_decl(self, v, out):
         """v: VarDecl of a guard type. Returns True if it was understood (tokens appended)."""
@@ -178,7 +186,7 @@ class Walker:
         if mentions(v, "defer_lock"):
             self.guards[v["id"]] = False
             return
-        out.append(("acq", ""))
+        self.emit_lock(out, "acq")
         self.guards[v["id"]] = True
 
     def lock_op(self, name, held_key, out):
@@ -187,11 +195,11 @@ class Walker:
             out.append(("unknown", "conditional " + name))
             return
         if name == "lock":
-            out.append(("acq", ""))
+            self.emit_lock(out, "acq")
             if held_key is not None:
                 self.guards[held_key] = True
         elif name == "unlock":
-            out.append(("rel", ""))
+            self.emit_lock(out, "rel")
             if held_key is not None:
                 self.guards[held_key] = False
         else:
@@ -200,6 +208,10 @@ class Walker:
     def method(self, mid):
         if mid in self.stack:
             return [("unknown", "recursion")]
+        if not self.stack:
+            self.held = 0
+            self.locals = {}
+            self.tainted = set()
         self.stack.append(mid)
         body = [c for c in inner(self.ci.methods[mid]) if c.get("kind") == "CompoundStmt"][0]
         out = []
@@ -260,6 +272,27 @@ class Walker:
             return
         out.append((mode, name))
 
+    def lambda_of(self, a):
+        """the lambda an argument denotes: written in place, or a local variable / parameter bound to one"""
+        lam = find_lambda(a)
+        if lam is not None:
+            return lam
+        n = a
+        while True:
+            n = unwrap_forward(n)
+            k = n.get("kind")
+            kids = inner(n)
+            if k in WRAPPERS and kids:
+                n = kids[0]
+                continue
+            if k == "CXXConstructExpr" and len(kids) == 1:
+                n = kids[0]
+                continue
+            break
+        if n.get("kind") == "DeclRefExpr":
+            return self.lam.get(n.get("referencedDecl", {}).get("id"))
+        return None
+
     def inline_lambda(self, lam, out, parents):
         body = lambda_body(lam)
         if body is None or lam.get("id", id(lam)) in self.lam_stack:
@@ -290,12 +323,12 @@ class Walker:
             kids = inner(n)
             callee = strip_casts(kids[0]) if kids else {}
             if (callee.get("kind") == "MemberExpr" and inner(callee) and is_this(inner(callee)[0])
-                    and any(find_lambda(a) is not None for a in kids[1:])):
+                    and any(self.lambda_of(a) is not None for a in kids[1:])):
                 target = self.resolve_member(callee)
                 if target is not None:
                     params = [c for c in inner(self.ci.methods[target]) if c.get("kind") == "ParmVarDecl"]
                     for i, a in enumerate(kids[1:]):
-                        lam = find_lambda(a)
+                        lam = self.lambda_of(a)
                         if lam is not None and i < len(params):
                             self.lam[params[i]["id"]] = lam
                         else:
@@ -319,18 +352,45 @@ class Walker:
             if lam is not None:
                 self.lam[n["id"]] = lam      # auto f = [&] { ... };  inlined where f() is called
                 return
+            ty = n.get("type", {})
+            tys = (ty.get("desugaredQualType") or "") + " " + ty.get("qualType", "")
+            if POINTERISH.search(tys) and not any(g in tys for g in GUARDS):
+                self.locals[n["id"]] = tys
+                if self.held > 0 and kids:
+                    self.tainted.add(n["id"])
+        if k == "BinaryOperator" and n.get("opcode") == "=":
+            kids = inner(n)
+            lhs = strip_casts(kids[0]) if kids else {}
+            if lhs.get("kind") == "DeclRefExpr" and lhs.get("referencedDecl", {}).get("id") in self.locals and self.held > 0:
+                self.tainted.add(lhs["referencedDecl"]["id"])
+        if k == "CXXOperatorCallExpr" and self.held > 0:
+            kids = inner(n)
+            op = strip_casts(kids[0]).get("referencedDecl", {}).get("name") if kids else None
+            lhs = strip_casts(kids[1]) if len(kids) > 1 else {}
+            if op == "operator=" and lhs.get("kind") == "DeclRefExpr" and lhs.get("referencedDecl", {}).get("id") in self.locals:
+                self.tainted.add(lhs["referencedDecl"]["id"])
+        if k == "DeclRefExpr" and n.get("referencedDecl", {}).get("id") in self.lam:
+            # a callable bound to a lambda is mentioned other than by calling it or handing it to a synchronous
+            # standard algorithm (both handled above): where and when its body runs is not understood
+            out.append(("unknown", "callable passed on"))
+            return
+        if k == "DeclRefExpr" and self.held <= 0 and n.get("referencedDecl", {}).get("id") in self.tainted:
+            # a pointer / reference / iterator into the container that was obtained inside a critical section is used
+            # after the lock has been released: whatever it designates is no longer protected
+            out.append(("unknown", "pointer or iterator obtained under the lock is used after the release"))
+            return
         if k == "CallExpr":
             kids = inner(n)
             callee = strip_casts(kids[0]) if kids else {}
             fname = callee.get("referencedDecl", {}).get("name") if callee.get("kind") == "DeclRefExpr" else None
-            if fname in SYNC_ALGOS and any(find_lambda(a) is not None for a in kids[1:]):
+            if fname in SYNC_ALGOS and any(self.lambda_of(a) is not None for a in kids[1:]):
                 # a standard algorithm calls the lambda synchronously, any number of times: a loop body
                 for a in kids[1:]:
-                    lam = find_lambda(a)
+                    lam = self.lambda_of(a)
                     if lam is None:
                         self.visit(a, out, parents + [n])
                 for a in kids[1:]:
-                    lam = find_lambda(a)
+                    lam = self.lambda_of(a)
                     if lam is not None:
                         body = []
                         self.inline_lambda(lam, body, parents + [n])
@@ -349,7 +409,7 @@ class Walker:
                 self.visit(c, out, parents + [n])
             for g in reversed(mine):
                 if self.guards.pop(g, False):
-                    out.append(("rel", ""))
+                    self.emit_lock(out, "rel")
             return
         if k in CONDS:
             self.cond += 1
